@@ -150,6 +150,33 @@ Section Generic.
        sst _ _ y5 = fst (RQ (sst _ _ y4) q) /\ outa _ _ y5 = outa _ _ y4 ++ [RArr (snd (RQ (sst _ _ y4) q))] /\
        length (snd (RQ (sst _ _ y4) q)) = length q).
   Proof. exact (watch_multi_exec_two_clients St cmd decode_cmd exec kind cmd_get stub_reply get_read_only). Qed.
+
+  (* Several WATCH commands.  A: any number of WATCH commands (overlapping key lists, a key named
+     again or repeated inside one WATCH) with B doing anything between any two of them; A: MULTI; A
+     queues while B does anything; A: EXEC.  [watch_snaps y sched0] lists, per WATCH command and per
+     key named, the GET reply AT THAT WATCH; nothing recorded is ever replaced.  EVERY entry counts:
+     EXEC is nil and applies nothing iff for some entry - in particular the one of the FIRST WATCH of a
+     key - the key's GET reply at EXEC differs from the recorded one; otherwise everything is applied. *)
+  Theorem C05_multi_watch_exec_two_clients :
+    forall (y : sys St cmd) (vm : resp) (cmu : cmd) (ve : resp) (ce : cmd) (sched0 sched2 : list (bool * resp)),
+    txa _ _ y = tx_idle cmd ->
+    Forall (fun p => fst p = true -> exists cm ks, decode_cmd (snd p) = inl cm /\ kind cm = KWatch ks) sched0 ->
+    decode_cmd vm = inl cmu -> kind cmu = KMulti ->
+    decode_cmd ve = inl ce -> kind ce = KExec ->
+    Forall (fun p => fst p = true -> exists cm, decode_cmd (snd p) = inl cm /\ queueable (kind cm)) sched2 ->
+    let y2 := RUN2 y sched0 in
+    let y3 := STEP2 y2 true vm in
+    let y4 := RUN2 y3 sched2 in
+    let y5 := STEP2 y4 true ve in
+    let q := a_cmds cmd decode_cmd sched2 in
+    let snaps := watch_snaps St cmd decode_cmd exec kind cmd_get stub_reply y sched0 in
+    txa _ _ y5 = tx_idle cmd /\
+    ((exists k old, In (k, old) snaps /\ GETR (sst _ _ y4) k <> old) ->
+       sst _ _ y5 = sst _ _ y4 /\ outa _ _ y5 = outa _ _ y4 ++ [RNilArr]) /\
+    ((forall k old, In (k, old) snaps -> GETR (sst _ _ y4) k = old) ->
+       sst _ _ y5 = fst (RQ (sst _ _ y4) q) /\ outa _ _ y5 = outa _ _ y4 ++ [RArr (snd (RQ (sst _ _ y4) q))] /\
+       length (snd (RQ (sst _ _ y4) q)) = length q).
+  Proof. exact (multi_watch_exec_two_clients St cmd decode_cmd exec kind cmd_get stub_reply get_read_only). Qed.
 End Generic.
 
 (* Over a backend with values (the mini backend of the correspondence check): "the GET reply differs"
@@ -201,6 +228,7 @@ Print Assumptions C05_abort_no_effect.
 Print Assumptions C05_queue_time_error_marks.
 Print Assumptions C05_watch_iff_get_reply_changed.
 Print Assumptions C05_watch_multi_exec_two_clients.
+Print Assumptions C05_multi_watch_exec_two_clients.
 Print Assumptions C05_watch_iff_changed_strings.
 Print Assumptions C05_watch_nonstring_refuted.
 Print Assumptions C05_mini_get_read_only.
@@ -219,3 +247,18 @@ Example C05_nonvacuous :
   value_of (sst _ _ y2) (str "j") = Some (VStr (str "1")).
 Proof. exact nonvacuous_c05. Qed.
 Print Assumptions C05_nonvacuous.
+
+(* A key watched twice with a change by B BETWEEN the two WATCHes (none afterwards): the first snapshot
+   decides - EXEC is nil, nothing is applied; the same with the key repeated in a multi-key WATCH. *)
+Example C05_first_watch_decides :
+  let A (l : list string) := (true, frame (map str l)) in
+  let B (l : list string) := (false, frame (map str l)) in
+  let tail := [A ["MULTI"]; A ["SET"; "j"; "1"]; A ["EXEC"]] in
+  let y1 := mrun2 (msys_init []) (app [B ["SET"; "k"; "a"]; A ["WATCH"; "k"]; B ["SET"; "k"; "b"]; A ["WATCH"; "k"]] tail) in
+  let y2 := mrun2 (msys_init []) (app [B ["SET"; "k"; "a"]; A ["WATCH"; "k"]; B ["SET"; "k"; "b"]; A ["WATCH"; "h"; "k"; "k"]] tail) in
+  let y3 := mrun2 (msys_init []) (app [B ["SET"; "k"; "a"]; A ["WATCH"; "k"]; A ["UNWATCH"]; B ["SET"; "k"; "b"]; A ["WATCH"; "k"]] tail) in
+  last (outa _ _ y1) R_OK = RNilArr /\ value_of (sst _ _ y1) (str "j") = None /\
+  last (outa _ _ y2) R_OK = RNilArr /\ value_of (sst _ _ y2) (str "j") = None /\
+  last (outa _ _ y3) R_OK = RArr [RSimple (str "OK")] /\ value_of (sst _ _ y3) (str "j") = Some (VStr (str "1")).
+Proof. exact first_watch_decides_c05. Qed.
+Print Assumptions C05_first_watch_decides.
